@@ -20,10 +20,10 @@ import (
 
 func init() {
 	Registry["C15"] = Spec{
-		Fn:     c15,
-		Level:  "exploration",
-		Builds: []string{"default", "purego"},
-		Rule: "the same driver source is compiled with and without -tags purego; for every catalogue column built on a two-variant codec (32 generated + Bool + UUID, plus Point/Interval/wrappers that sit on them) it decodes generated raw inputs (exhaustive: every value of 8- and 16-bit element types, every input byte 0..255 for Bool; boundary+random limbs for wider ones; row counts 0,1,2,3,7,8,9,1000; inputs short by 1..size bytes) into {fresh, used-then-reset} columns and re-encodes through EncodeColumn into {empty, junk-prefixed 1..17 B} buffers and WriteColumn+Flush; each step appends a transcript line (case id -> hash of bytes / values / error class); the parent aligns both transcripts by case id. Non-trivial = >=1 row; distinct = transcript case ids with rows>0",
+		Fn:          c15,
+		Level:       "exploration",
+		Builds:      []string{"default", "purego"},
+		Rule:        "the same driver source is compiled with and without -tags purego; for every catalogue column built on a two-variant codec (32 generated + Bool + UUID, plus Point/Interval/wrappers that sit on them) it decodes generated raw inputs (exhaustive: every value of 8- and 16-bit element types, every input byte 0..255 for Bool; boundary+random limbs for wider ones; row counts 0,1,2,3,7,8,9,1000; inputs short by 1..size bytes) into {fresh, used-then-reset} columns and re-encodes through EncodeColumn into {empty, junk-prefixed 1..17 B} buffers and WriteColumn+Flush; each step appends a transcript line (case id -> hash of bytes / values / error class); the parent aligns both transcripts by case id. Non-trivial = >=1 row; distinct = transcript case ids with rows>0",
 		Assumptions: []string{"error classes compared are {nil, short read, bad value}; after a failed decode only the error class is compared", "ColRawOf exists only in the default build and is excluded"},
 		MinDistinct: 500,
 		Post:        c15Post,
@@ -210,11 +210,17 @@ func c15Decode(t *c15T, e val.Entry, id string, raw []byte, rows int, reuse bool
 	p := core.Recover(func() {
 		c := col.Col()
 		if reuse {
-			// use it once with other data, then reset
-			rd := proto.NewReader(bytes.NewReader(raw))
-			if s, ok := c.(proto.StateDecoder); ok {
-				_ = s
+			// use it once with other data of the same shape (the rows in reverse order, which is
+			// valid whenever raw is), then reset: nothing of it may survive
+			other := raw
+			if rows > 1 && len(raw)%rows == 0 {
+				w := len(raw) / rows
+				other = make([]byte, 0, len(raw))
+				for i := rows - 1; i >= 0; i-- {
+					other = append(other, raw[i*w:(i+1)*w]...)
+				}
 			}
+			rd := proto.NewReader(bytes.NewReader(other))
 			_ = c.DecodeColumn(rd, rows)
 			c.Reset()
 		}
